@@ -282,6 +282,25 @@ theorem C14_terms_key_desc_exact_under_truncation (p : TermsP) (sub : Req) (ho :
   rw [h.1, h.2, finalize_collect_pv]
   exact ⟨rfl, rfl⟩
 
+/-- the hypothesis `min_doc_count ≤ 1` of the two theorems above is needed: the cut happens before the
+`min_doc_count` filter.  Segment 1 holds keys 1 (one document) and 2 (two documents) and keeps key 1
+only; segment 2 holds key 2 once.  With `min_doc_count = 2` the direct computation shows key 2 with
+three documents, the truncated segments show nothing (documented behaviour of the code, which the
+harness accepts: it checks only the bounds then). -/
+theorem C14_terms_key_order_min_doc_count_counterexample :
+    ∃ (p : TermsP) (parts : List (List Doc)), p.order = .keyAsc ∧ p.size ≤ p.segSize ∧ p.minDocCount = 2 ∧
+      (finalize (M := Int) (.terms p .none) (mergeFruits (.terms p .none) (parts.map (collectSeg (.terms p .none))))).1 = []
+      ∧ (evalAggPV Int (.terms p .none) parts.flatten).1 = [(2, 3, ())] :=
+  ⟨⟨0, Option.none, 1, 1, 2, .keyAsc⟩, [[[(0, [1, 2])], [(0, [2])]], [[(0, [2])]]], rfl, by decide, rfl,
+    by decide +kernel, by decide +kernel⟩
+
+/-- a segment may evict with ANY buffer of at least the page size: trimming to a larger page first is
+invisible in the page (the composite collector's buffer is exactly `size`, `termsCut` for `_key`
+order uses `segment_size ≥ size`) -/
+theorem C14_composite_trim_monotone {V : Type} {size n : Nat} (hle : size ≤ n) (after : Option Int)
+    (m : KMap (Nat × V)) : compTrim size after (compTrim n after m) = compTrim size after m :=
+  trim_trim_le hle after m
+
 /-- the same bounds for EVERY merge schedule (any order, any grouping) of the truncated segment
 fruits, not only for the collector's own fold -/
 theorem C14_terms_error_bound_any_schedule (p : TermsP) (sub : Req) (parts : List (List Doc))
@@ -647,6 +666,8 @@ example : finalize (M := Int) (.terms ⟨0, Option.none, 1, 1, 1, .keyDesc⟩ .n
     (mergeFruits (.terms ⟨0, Option.none, 1, 1, 1, .keyDesc⟩ .none)
       ([[[(0, [3])], [(0, [1])]], [[(0, [2])], [(0, [1])]]].map
         (collectSeg (M := Int) (.terms ⟨0, Option.none, 1, 1, 1, .keyDesc⟩ .none)))) = ([(3, 1, ())], 3, 2) := by decide +kernel
+example : (compTrim 1 Option.none (compTrim 2 Option.none (KMap.merge (fun a _ => a) (KMap.single 3 (1, ()))
+    (KMap.merge (fun a _ => a) (KMap.single 1 (1, ())) (KMap.single 2 (1, ())))))).entries = [(1, 1, ())] := by decide +kernel
 example : [0, 10, 20].Pairwise (fun a b : Int => a < b) := by decide
 example : ([1, 2, 3] : List Int).Nodup ∧ ∀ d ∈ exTDocs, ∀ k ∈ termKeys ⟨0, Option.none, 2, 2, 1, .countDesc⟩ d, k ∈ [1, 2, 3] := by
   decide
